@@ -81,3 +81,36 @@ Proof.
           apply negb_true_iff in E3. assert (existsb (Z.eqb x) mask = true) by (apply existsb_exists; exists x; split; [exact Hin|apply Z.eqb_refl]). congruence. }
       * apply (IH n mask (S k) mask' H).
 Qed.
+
+(* ---------- negative-index list updates ---------- *)
+From DV Require Import Base.Rot Base.ListAux.
+Lemma set_neg_length k v l : (1 <= k)%nat -> length (set_neg k v l) = length l.
+Proof.
+  intros Hk. unfold set_neg. destruct (k <=? length l)%nat eqn:E; [|reflexivity].
+  apply Nat.leb_le in E. rewrite app_length, firstn_length. cbn [length]. rewrite skipn_length. lia.
+Qed.
+
+Lemma nth_set_neg k v l i : (1 <= k <= length l)%nat -> (i < length l)%nat ->
+  nth i (set_neg k v l) 0 = if Nat.eqb i (length l - k) then v else nth i l 0.
+Proof.
+  intros Hk Hi. unfold set_neg. replace (k <=? length l)%nat with true by (symmetry; apply Nat.leb_le; lia).
+  set (p := (length l - k)%nat).
+  destruct (Nat.eqb i p) eqn:E.
+  - apply Nat.eqb_eq in E. subst i. rewrite app_nth2 by (rewrite firstn_length; lia).
+    rewrite firstn_length. replace (p - Nat.min p (length l))%nat with 0%nat by lia. reflexivity.
+  - apply Nat.eqb_neq in E. destruct (Nat.lt_ge_cases i p) as [Hlt|Hge].
+    + rewrite app_nth1 by (rewrite firstn_length; lia). apply nth_firstn. exact Hlt.
+    + rewrite app_nth2 by (rewrite firstn_length; lia). rewrite firstn_length.
+      replace (i - Nat.min p (length l))%nat with (S (i - S p)) by lia. cbn [nth].
+      rewrite nth_skipn. f_equal. lia.
+Qed.
+
+Lemma nth_map_const (l : list Z) i : (i < length l)%nat -> nth i (map (fun _ => 1) l) 0 = 1.
+Proof. revert i. induction l as [|x xs IH]; intros i H; [cbn in H; lia|]. destruct i; [reflexivity|]. cbn. apply IH. cbn in H. lia. Qed.
+
+Lemma nth_spec_body dyn (shape : list Z) i : (i < length shape)%nat ->
+  nth i (map (fun i => if (Nat.eqb i (length shape - 2) || Nat.eqb i (length shape - 3) || (dyn && Nat.eqb i (length shape - 4)))%bool then nth i shape 0 else 1) (seq 0 (length shape))) 0
+  = if (Nat.eqb i (length shape - 2) || Nat.eqb i (length shape - 3) || (dyn && Nat.eqb i (length shape - 4)))%bool then nth i shape 0 else 1.
+Proof.
+  intros H. rewrite (nth_map' _ _ i 0 0%nat) by (rewrite seq_length; exact H). rewrite seq_nth by exact H. reflexivity.
+Qed.
